@@ -20,6 +20,15 @@ try:
         env = dict(os.environ, PYTHONPATH=W)
         d = subprocess.run(['/venv/bin/python', os.path.join(D, 'demo.py')], env=env, capture_output=True, text=True, timeout=600)
         res['demo_exit_with_change'] = d.returncode
+        d0 = subprocess.run(['/venv/bin/python', os.path.join(D, 'demo.py')], env=dict(os.environ, PYTHONPATH='/repo'),
+                            capture_output=True, text=True, timeout=600) if os.path.exists(os.path.join(D, 'demo.py')) else None
+        res['demo_exit_clean_tree'] = d0.returncode if d0 is not None else None
+        t = subprocess.run(['/venv/bin/python', '-m', 'pytest', '-q', '-p', 'no:cacheprovider', '--timeout=900'], cwd=W,
+                           capture_output=True, text=True, timeout=1800)
+        res['tests_with_change'] = (t.stdout.strip().splitlines() or ['?'])[-1]
+        subprocess.run(['git', 'checkout', '--', '.'], cwd=W)
+        subprocess.run(['git', 'clean', '-fdq'], cwd=W)
+        subprocess.run(['git', 'apply', os.path.join(D, 'patch.diff')], cwd=W)
         for p in props:
             env = dict(os.environ, DROOP_REPO=W)
             c = subprocess.run(['./check', p, '--tier', 'quick'], cwd=os.environ.get('VERIF_DIR', '/verif'), env=env, capture_output=True, text=True, timeout=3000)
@@ -31,4 +40,5 @@ try:
 finally:
     subprocess.run(['git', '-C', '/repo', 'worktree', 'remove', '--force', W])
 json.dump(res, open(os.path.join(D, 'result.json'), 'w'), indent=1)
-print(sid, {p: (v['exit'], v['violations']) for p, v in res.get('checks', {}).items()}, res.get('error', ''))
+print(sid, {p: (v['exit'], v['violations']) for p, v in res.get('checks', {}).items()}, res.get('error', ''),
+      'demo', res.get('demo_exit_with_change'), res.get('demo_exit_clean_tree'), res.get('tests_with_change'))
